@@ -900,6 +900,33 @@ func checkSVGHeader(c *hc.Ctx, rv *replay) {
 // ---- targeted probes ---------------------------------------------------------------------------
 
 func probes(c *hc.Ctx) {
+	// 0. outline fallback with an empty outline: the path lies in a gap of the width-scaled dash pattern
+	{
+		st := canvas.DefaultStyle
+		st.Fill = canvas.Paint{}
+		st.Stroke = canvas.Paint{Color: canvas.Black}
+		st.StrokeWidth = 3
+		st.Dashes = []float64{2, 1, 1, 1}
+		st.DashOffset = 2.5
+		cl := call{path: canvas.MustParseSVGPath("M0 0L0.3 0"), style: st, m: canvas.Identity.Scale(2, 0.5)}
+		if o, d := canvas.ScaleDash(st.StrokeWidth, st.DashOffset, st.Dashes); cl.path.Dash(o, d...).Stroke(3, st.StrokeCapper, st.StrokeJoiner, canvas.Tolerance).Empty() {
+			rp := replayPDF([]call{cl})
+			pin := newPDFInterp(func() map[string][2]float64 { return rp.pages[0].ext })
+			pin.run(rp.prefix)
+			c.Evals++
+			c.Count("probe:empty-stroke-outline")
+			for _, it := range pin.run(rp.segs[0]) {
+				if it.kind == "invalid" {
+					c.Fail("pdf:outline:empty-outline-painted-without-path", "the outline fallback writes `"+strings.TrimSpace(string(rp.segs[0]))+"`: "+it.why,
+						map[string]any{"program": describe([]call{cl}, nil), "output": string(rp.segs[0])})
+				} else {
+					c.Fail("pdf:outline:empty-outline-paints-something", "an empty stroke outline painted an item", map[string]any{"output": string(rp.segs[0])})
+				}
+			}
+		} else {
+			c.Count("probe:empty-stroke-outline:not-empty(skipped)")
+		}
+	}
 	// 1. PDF gradient that needs a stitching function (three stops)
 	{
 		g := canvas.NewLinearGradient(canvas.Point{X: 0, Y: 0}, canvas.Point{X: 10, Y: 0})
